@@ -66,6 +66,56 @@ func program(rng *rand.Rand, round int) []txSpec {
 		one("burn-vault-denom-u2", "attack", "att", call(malPath, "Burn", 0, stdDep, vDenom, "u2", "50")),
 		one("burn-ugnot-u2", "attack", "att", call(malPath, "Burn", 0, stdDep, "ugnot", "u2", "50")),
 	)
+	// ---- origin-send INSTALMENTS: several sends through one origin-send banker whose running total exceeds what
+	// came with the call although every two consecutive sends fit (a budget that forgets earlier sends lets them pass)
+	join := func(p ...int64) string {
+		out := ""
+		for i, x := range p {
+			if i > 0 {
+				out += ","
+			}
+			out += s(x)
+		}
+		return out
+	}
+	type inst struct {
+		name  string
+		x     int64
+		parts string
+	}
+	mk := func() []inst {
+		x := 2 * amt(500, 900_000) // even, so that x/2 + x/2 = x exactly
+		h, t := x/2, x/3+1
+		a := x*3/5 - amt(0, x/10)
+		b := x - a // a + b = x: every adjacent pair of a,b,a,b fits exactly
+		q := x / 4
+		return []inst{
+			{"3x-half", x, join(h, h, h)}, {"4x-half", x, join(h, h, h, h)},
+			{"3x-third1", x, join(t, t, t)}, {"4x-third1", x, join(t, t, t, t)},
+			{"mixed-aba", x, join(a, b, a)}, {"mixed-abab", x, join(a, b, a, b)},
+			{"mixed-half-quarter", x, join(h, q, h, q, h)},
+		}
+	}
+	for _, in := range mk() {
+		atk = append(atk, one("inst-"+in.name, "attack", "att", call(vaultPath, "ForwardParts", in.x, stdDep, "ATTADDR", in.parts)))
+	}
+	for _, in := range mk()[:3] {
+		atk = append(atk, one("u1-inst-"+in.name, "attack", "u1", call(vaultPath, "ForwardParts", in.x, stdDep, "ATTADDR", in.parts)))
+	}
+	for _, in := range mk()[:4] {
+		m := runScript("run-forward-parts", in.x)
+		m.Parts = in.parts
+		atk = append(atk, one("run-forward-"+in.name, "attack", "att", m))
+	}
+	{
+		in := mk()[0]
+		m := runScript("run-inst-own", in.x)
+		m.Parts = in.parts
+		atk = append(atk, one("run-inst-own-3x-half", "attack", "att", m))
+		m2 := runScript("run-payout-via", in.x)
+		m2.Parts = in.parts
+		atk = append(atk, one("run-payout-via-3x-half", "attack", "att", m2))
+	}
 	for _, sc := range []string{"leak-stale", "leakprev-stale", "callback-own-cur", "run-forward", "run-from-u2", "run-prev", "forge-literal", "native-direct", "convert-readonly"} {
 		send := int64(0)
 		if sc == "run-forward" {
@@ -87,9 +137,31 @@ func program(rng *rand.Rand, round int) []txSpec {
 		one("att-own", "benign", "att", call(malPath, "Own", 0, stdDep, s(amt(1, 1_000)))),
 		one("att-kept-own", "benign", "att", call(malPath, "UseKeptOwn", 0, stdDep, s(amt(1, 1_000)))),
 		one("u1-bloat-within-limit", "benign", "u1", call(malPath, "Bloat", 0, stdDep, s(amt(3, 9)))),
+	)
+	// instalments through the third-party router that only receives the vault's origin-send banker. A SUCCESSFUL
+	// hand-over is a grant for every later transaction (the struct persists), which would blunt the statement for the
+	// attacks after it: so the attacks (which a healthy chain rolls back, counter included) come first, in seeded
+	// order, and the within-envelope hand-over last.
+	{
+		var ratk []txSpec
+		for _, in := range mk() {
+			ratk = append(ratk, one("router-"+in.name, "attack", "att", call(vaultPath, "PayoutVia", in.x, stdDep, "ATTADDR", in.parts)))
+		}
+		rng.Shuffle(len(ratk), func(i, j int) { ratk[i], ratk[j] = ratk[j], ratk[i] })
+		post = append(post, ratk...)
+		x := 2 * amt(500, 900_000)
+		post = append(post,
+			one("inst-2x-half-exact", "benign", "att", call(vaultPath, "ForwardParts", x, stdDep, "ATTADDR", join(x/2, x/2))),
+			one("router-2x-half-exact", "benign", "u1", call(vaultPath, "PayoutVia", x, stdDep, "U2", join(x/2, x/2))))
+	}
+	post = append(post,
 		one("ctl-delegate", "control", "att", runScript("delegate", 0)),
 		one("ctl-delegate-keep", "control", "att", runScript("delegate-keep", 0)),
 		one("att-after-delegation", "attack", "att", call(malPath, "SendFrom", 0, stdDep, "realm", "vault", "1234")),
+		// the router keeps the origin-send banker it was handed and uses it in a later transaction (documented:
+		// a banker handed out is an irrevocable grant - recorded, not judged)
+		one("router-keep", "benign", "att", call(vaultPath, "PayoutVia", 1000, stdDep, "ATTADDR", "keep,400")),
+		one("router-replay-kept", "benign", "att", call(routerPath, "Replay", 700, stdDep, "ATTADDR", "700")),
 	)
 	out := append(pre, atk...)
 	return append(out, post...)
